@@ -246,6 +246,9 @@ class Facts:
             out.append(c)
             if recursive:
                 out.extend(self.closures_of(c.path, True))
+        # closures of helpers that the inlined view folded into this function (lib/inline.py)
+        for hp in getattr(self, "_inlined_from", {}).get(path, []):
+            out.extend(self.closures_of(hp, recursive))
         return out
 
     def matches(self, path):
@@ -254,7 +257,13 @@ class Facts:
             b = self.body(path)
             if b:
                 h = self.hir.get(b.path)
-        return h["matches"] if h else []
+                path = b.path
+        out = list(h["matches"]) if h else []
+        for hp in getattr(self, "_inlined_from", {}).get(path, []):
+            hh = self.hir.get(hp)
+            if hh:
+                out.extend(hh["matches"])
+        return out
 
 
 def load_dir(fdir, crates=None):
